@@ -366,7 +366,7 @@ def _run_torch(case, td, syntax, tag, seed=None, workers=0, fresh=None):
 
     key = case.get("alias_key", "alias")
     inputs = _torch_inputs(case)
-    raw = os.path.join(td, "raw")
+    raw = os.path.join(td, case.get("rawdir") or "raw")
     os.makedirs(raw, exist_ok=True)
     mp = os.path.join(td, "map_%s.txt" % tag)
     with open(mp, "w") as f:
@@ -426,6 +426,8 @@ def check_torch(case):
         if listed is not None:
             require(sorted(listed) == sorted(inputs), "manifest lists {} after the run, expected every utterance once: {}", listed, sorted(inputs))
         labels = ["syntax=" + case["syntax"], "kind=" + (case["comp"]["kind"] if case["comp"] else "raw")]
+        if (case.get("rawdir") or "raw") != "raw":
+            labels.append("path with blanks / tabs")
         if case.get("other_syntax"):
             rc2, stored2, _ = _run_torch(case, td, case["other_syntax"], "b", seed=case.get("seed"), workers=0)
             require(set(stored2) == set(stored), "config syntaxes gave different utterance sets")
@@ -565,7 +567,7 @@ def _torch_cases(draw):
              "seed": draw(st.integers(0, 2 ** 31 - 1)), "amp": draw(st.sampled_from([3000, 30000, 10])),
              "container": draw(st.sampled_from(conts)), "dtype": draw(st.sampled_from(["i16", "f32", "f64"])),
              "flat": draw(st.booleans()), "fortran": draw(st.sampled_from([False, False, True]))}
-        if draw(st.sampled_from([False, False, False, True])) and u["container"] != "wav":
+        if draw(st.sampled_from([False, True])) and u["container"] != "wav":
             u["dc"] = draw(st.sampled_from([2e4, -5e3, 1e5]))
         if u["container"] == "wav":
             u["n"] = max(u["n"], 1)
@@ -580,6 +582,9 @@ def _torch_cases(draw):
                                    st.sampled_from([[0], [1], [0, 3], [4], [3, 1]]))),
         "workers": draw(st.sampled_from([0] * 11 + [2])),
         "ids": draw(st.integers(0, 3)),
+        # directory holding the signal files: its name may contain blanks (also doubled) and tabs - the map format is
+        # "<id> <path>" with everything after the first blank being the path
+        "rawdir": draw(st.sampled_from(["raw", "raw", "raw", "disc 1  (copy)", "a b", "tab\there"])),
     }
 
 
